@@ -29,7 +29,7 @@ func init() {
 		Gen:        genC14,
 		Corpus:     corpusC14,
 		NonTrivial: func(c *Case) bool { return c.Tags["replies"] > 0 },
-		ShardSize:  12,
+		ShardSize:  8,
 	}
 }
 
@@ -573,24 +573,57 @@ func (w *world) genReq(r *Rand, proc string, oddPct int) *nfsx.Req {
 	default:
 		q.H = w.pickHandle(r, 'd')
 	}
+	// the namespace-changing procedures mostly aim at the root directory with names that make them succeed
+	rootish := len(w.dirs) > 0 && r.Chance(65)
+	if rootish {
+		switch proc {
+		case "REMOVE", "RMDIR", "RENAME", "CREATE", "MKDIR", "SYMLINK":
+			q.H = w.dirs[0]
+		}
+	}
+	fresh := func() []byte { return []byte(PickStr(r, "new1", "new2", "n3", "n4", "n5")) }
 	switch proc {
-	case "LOOKUP", "REMOVE", "RMDIR", "MKNOD":
+	case "LOOKUP", "MKNOD":
 		q.Name = pickName(r, oddPct)
+	case "REMOVE":
+		q.Name = pickName(r, oddPct)
+		if rootish && r.Chance(70) {
+			q.Name = []byte(PickStr(r, "c", "zero", "blk", "d", "longlink", "new1", "new2", "n3"))
+		}
+	case "RMDIR":
+		q.Name = pickName(r, oddPct)
+		if rootish && r.Chance(70) {
+			q.Name = []byte(PickStr(r, "empty", "new1", "new2", "n3", "a"))
+		}
 	case "CREATE":
 		q.Name = pickName(r, oddPct)
+		if rootish && r.Chance(70) {
+			q.Name = fresh()
+		}
 		q.How = uint32(PickInt(r, 0, 0, 1, 1, 2, 3))
 		q.Sa = pickSattr(r, 20)
 	case "MKDIR":
 		q.Name = pickName(r, oddPct)
+		if rootish && r.Chance(70) {
+			q.Name = fresh()
+		}
 		q.Sa = pickSattr(r, 0)
 	case "SYMLINK":
 		q.Name = pickName(r, oddPct)
+		if rootish && r.Chance(70) {
+			q.Name = fresh()
+		}
 		q.Sa = pickSattr(r, 0)
 		q.Target = []byte(PickStr(r, "a", "c", "c/d", "nothere", "../x", "/etc/passwd", "", "a/../b", "a\x00b", strings.Repeat("p/", 300)+"q"))
 	case "RENAME":
 		q.Name = pickName(r, oddPct)
 		q.H2 = w.pickHandle(r, 'd')
 		q.Name2 = pickName(r, oddPct)
+		if rootish && r.Chance(70) {
+			q.Name = []byte(PickStr(r, "c", "zero", "blk", "empty", "sparse", "new1", "n3"))
+			q.H2 = q.H
+			q.Name2 = fresh()
+		}
 	case "LINK":
 		q.H = w.pickHandle(r, 'f')
 		q.H2 = w.pickHandle(r, 'd')
